@@ -95,6 +95,10 @@ def op_args(op, i):
 
 def run_operation(op, kind, i, extra_replies=()):
     replies = [dec(i.get("R1", b"")), dec(i.get("R2", b""))] + [dec(x) for x in extra_replies]
+    k_ = 3
+    while f"R{k_}" in i:          # replies to reads beyond the usual exchange (code that reads more often than expected)
+        replies.append(dec(i[f"R{k_}"]))
+        k_ += 1
     a = make(kind, dec(i["dev_id"]), dec(i["dev_key"]), replies)
     now = dec(i.get("now"))
     k, v = call(a, op, op_args(op, i), now)
